@@ -17,6 +17,7 @@ func TestRace_PriStress(t *testing.T)     { PartPriStressRace.Run(t) }
 func TestProp_Tie(t *testing.T)           { PartTie.Run(t) }
 func TestRace_Tie(t *testing.T)           { PartTieRace.Run(t) }
 func TestProp_Anyway(t *testing.T)        { PartAnyway.Run(t) }
+func TestRace_Anyway(t *testing.T)        { PartAnywayRace.Run(t) }
 
 func TestReplay(t *testing.T) {
 	PartCtl.Replay(t, 1)
@@ -28,4 +29,5 @@ func TestReplay(t *testing.T) {
 	PartTie.Replay(t, 20)
 	PartTieRace.Replay(t, 20)
 	PartAnyway.Replay(t, 20)
+	PartAnywayRace.Replay(t, 20)
 }
